@@ -532,6 +532,19 @@ func checkC18Providers(t *testing.T, c *provCase, rec *Recorder) []Diff {
 		rec.Case(scenarioKey(c), false, nil, "budget-edge(not asserted)")
 		return ds
 	}
+	if firstValid == "" && err != nil {
+		// nothing valid was obtained: discovery may only give up after every provider has been asked
+		asked := map[string]bool{}
+		for _, call := range rt.Calls {
+			asked[call.URL] = true
+		}
+		for i, u := range order {
+			if !asked[u] {
+				add("provider-never-asked", "discovery failed (%v) although provider #%d (%s) was never asked", err, i, u)
+				break
+			}
+		}
+	}
 	if firstValid != "" {
 		if err != nil || !got.Equal(net.ParseIP(firstValid)) {
 			add("wrong-address", "returned %v/%v, the first valid provider answer was %s", got, err, firstValid)
